@@ -233,7 +233,11 @@ func genVerifyBigMutations(h *H, n int) {
 			ma[off] = byte(1 - (off/mib)%2)
 		}
 		a := h.makeSigned("att", sk, v, ma)
-		b := h.makeSigned("att", sk, v, h.rng.Bytes(100))
+		lb := 100
+		if i == 0 {
+			lb = mib + 50 // a second multi-packet message by the same key: splices at matching positions
+		}
+		b := h.makeSigned("att", sk, v, h.rng.Bytes(lb))
 		run := func(input []byte, mut string) {
 			h.tag("mut-big:" + mut)
 			h.Run(Case{Op: "verify", A: map[string]string{"vd": "any", "ring": blist([][]byte{pk}), "input": hx(input),
@@ -242,6 +246,18 @@ func genVerifyBigMutations(h *H, n int) {
 		for k := 0; k < nm; k++ {
 			input, mut := mutateWire(h.rng, a.wire, b.wire)
 			run(input, mut)
+		}
+		cuts, tags := boundaryCuts(a.wire)
+		for k, input := range cuts {
+			run(input, tags[k])
+		}
+		if ob, ok := splitObjects(b.wire); ok && len(ob) >= 3 {
+			// header and first packet of a, the later packets of b (same key, same version, matching positions)
+			oa, _ := splitObjects(a.wire)
+			if len(oa) >= 3 {
+				run(joinObjects(append(append([][]byte{}, oa[:2]...), ob[2:]...)), "splice-tail-of-other-message")
+				run(joinObjects(append(append([][]byte{}, ob[:2]...), oa[2:]...)), "splice-tail-of-other-message")
+			}
 		}
 		// every non-final packet re-flagged final with one byte moved across the flag/payload boundary
 		objs, _ := splitObjects(a.wire)
